@@ -32,6 +32,15 @@ Definition ci_int_of_str (s : str) : res Z :=
 Definition in_bounds (lo hi : option Z) (z : Z) : bool :=
   (match lo with Some l => (l <=? z)%Z | None => true end) && (match hi with Some h => (z <=? h)%Z | None => true end).
 
+(* int(x) for a finite binary float: toward zero *)
+Definition float_trunc (f : SpecFloat.spec_float) : Z :=
+  match f with
+  | SpecFloat.S754_finite s m e =>
+      let v := if (0 <=? e)%Z then (Zpos m * 2 ^ e)%Z else (Zpos m / 2 ^ (- e))%Z in
+      if s then (- v)%Z else v
+  | _ => 0%Z
+  end.
+
 Definition bool_true : list string := ["t"; "true"; "1"; "on"; "yes"; "y"]%string.
 Definition bool_false : list string := ["f"; "false"; "0"; "off"; "no"; "n"]%string.
 Definition str_in (s : str) (l : list string) : bool := existsb (fun t => str_eqb s (sa t)) l.
@@ -66,7 +75,13 @@ Definition lvalidate (f : leaf) (x : pyval) : res pyval :=
                       | Err e => Err e
                       | Unmodelled => Unmodelled
                       end
-          | PFloat _ | POther _ => Unmodelled
+          | PFloat fl =>                                  (* int(float): truncation; OverflowError for infinities, ValueError for NaN *)
+              match fl with
+              | SpecFloat.S754_nan => Err EValue
+              | SpecFloat.S754_infinity _ => Err EOverflow
+              | _ => let z := float_trunc fl in if in_bounds lo hi z then Ok (PInt z) else Err EValue
+              end
+          | POther _ => Unmodelled
           | _ => Err EValue
           end
       | LStr mn mx lw strip =>
